@@ -261,6 +261,10 @@ pub fn gen_case(seed: u64, k: u64) -> Case {
         2 => "[build]\nentry = \"main.asm\"\noutput-format = \"prg\"\nlisting = true\n".into(),
         _ => "[build]\nentry = \"main.asm\"\nlisting = true\nsymbols = [\"vice\"]\n".into(),
     };
+    // rarely the place where the output should go is taken: `target` exists as a regular file
+    if rng.chance(1, 40) {
+        project.files.insert("target".into(), b"not a directory\n".to_vec());
+    }
     // one project in six carries formatting / listing options, half of them at the edges of their ranges
     if !project.toml.is_empty() && rng.chance(1, 6) {
         let extra = *rng.pick(&[
